@@ -183,7 +183,7 @@ def stencil_cases(tier, Ts, bound=1):
     return cases
 
 
-def other_cases(tier, Ts, bound=1):
+def other_cases(tier, Ts, bound=1, big_stencil=True):
     cases = []
     # level caches (both constructors) and transfers (reference versions are parallel at any size)
     for i, (nr, nt) in enumerate([(9, 8), (11, 12), (13, 16), (9, 20)]):
@@ -202,6 +202,15 @@ def other_cases(tier, Ts, bound=1):
         cid = "big_transfers_T%d" % T
         line = ol.case_line(cid, radii, angles, None, 1, 0.3, 0.2, 2, 1, 1.3, 0, "x") + " op=transfers T=%d bound=%d perms=rev audit=0" % (T, 1 if T == 2 else 0)
         cases.append(dict(id=cid, line=line, op="transfers_big", T=T, group="big_transfers"))
+    # every stencil operator once on a grid above the 10 000-node threshold: only there do the assembly loops behind an
+    # 'if (numberOfNodes() > 10 000)' / 'if (nnz > 10 000)' clause start a team at all
+    radii = ol.make_radii(65, 1e-2, 1.3, "graded0")
+    for op in (STENCIL_OPS if big_stencil else []):
+        for T in ([2] if tier != "thorough" else Ts):
+            cid = "big_%s_T%d" % (op, T)
+            line = ol.case_line(cid, radii, angles, None, 1, 0.3, 0.2, 2, 1, 1.3, 0, "x") + \
+                " op=%s T=%d bound=%d perms=rev audit=0" % (op, T, 1 if (tier == "thorough" and T <= 3) else 0)
+            cases.append(dict(id=cid, line=line, op=op, T=T, nr=65, nt=160, circles="auto", dirbc=0, group="big_%s" % op))
     # vector kernels around the parallelisation threshold
     for n in (9999, 10000, 10001, 12345):
         for T in Ts:
